@@ -195,7 +195,7 @@ static TblCmp compare_tables(const Gram& g, const ref::LR1& L, const TableDump& 
                 if (rc.sr && (e.kind == 2 || e.kind == 3 || e.kind == 4)) c.resolution_diff = true; else c.action_diff = true;
                 c.note(where + ": ctpg " + kind_name_c(e.kind) + (e.kind == 4 ? "(" + std::to_string(e.rule) + ")" : "") + ", reference " + kind_name_r(rc.kind) + (rc.kind == ref::K_REDUCE ? "(" + std::to_string(rc.arg) + ")" : ""));
             } else if (rc.kind == ref::K_SHIFT) link(rc.shift_to, e.arg, where);
-            if (bool(e.sr) != rc.sr) { c.srflag_diff = true; c.note(where + ": has_sr_conflict=" + std::to_string(e.sr) + ", reference " + (rc.sr ? "conflict" : "no conflict")); }
+            if (e.sr != 2 && bool(e.sr) != rc.sr) { c.srflag_diff = true; c.note(where + ": has_sr_conflict=" + std::to_string(e.sr) + ", reference " + (rc.sr ? "conflict" : "no conflict")); }
         }
     }
     if (!L.any_rr && !L.any_acc) {
@@ -284,9 +284,10 @@ static std::string check_diag(const Gram& g, const ref::LR1& L, const TableDump&
             }
             std::string l = "On " + term_name(g, t);
             bool conflict_line = false;
+            const bool esr = e.sr == 2 ? (rc && rc->sr) : bool(e.sr);
             if (e.kind == 1) l += " success ";
-            else if (e.kind == 4 && e.sr) { l += " S/R CONFLICT, prefer reduce(" + std::to_string(e.rule) + ") over shift"; conflict_line = true; }
-            else if ((e.kind == 2 || e.kind == 3) && e.sr) {
+            else if (e.kind == 4 && esr) { l += " S/R CONFLICT, prefer reduce(" + std::to_string(e.rule) + ") over shift"; conflict_line = true; }
+            else if ((e.kind == 2 || e.kind == 3) && esr) {
                 // the rule named must be the one whose completed item conflicts with the shift (taken from the reference)
                 int named = (rc && rc->nred >= 1) ? rc->red[0] : -2;
                 l += " S/R CONFLICT, prefer shift over reduce(" + (named == -2 ? std::string("?") : std::to_string(named)) + ")"; conflict_line = true;
